@@ -359,7 +359,22 @@ def build_enum(spec):
         vals[PPEnumFieldType.MISSING] = tuple(spec["missing"])
     if spec.get("user_default") == "name":
         return NameFirstEnumType(vals)
+    if spec.get("user_marker"):
+        return MarkedEnumType(vals)
     return PPEnumFieldType(vals)
+
+
+class MarkedEnumType(PPEnumFieldType):
+    """an application's enum type (documented hooks overridden, super() called): every cell gets a trailing mark.
+    The list of chunks it got from super() is its own to extend - as it is with every other field type."""
+
+    def make_desired_cell_ch_chunks(self, value, fmt_modifier, field_palette):
+        chunks, align = super().make_desired_cell_ch_chunks(value, fmt_modifier, field_palette)
+        chunks.append(field_palette.text("*"))
+        return chunks, align
+
+    def get_cell_text_len(self, value, fmt_modifier):
+        return super().get_cell_text_len(value, fmt_modifier) + 1
 
 
 class NameFirstEnumType(PPEnumFieldType):
@@ -403,6 +418,10 @@ class _Attr:
 
     def __init__(self, v):
         self.v = v
+
+    def __repr__(self):
+        # (no memory address: a table that shows the object itself must look the same in every process)
+        return f"_Attr({self.v!r})"
 
 
 class RaisingFieldType(FieldType):
@@ -530,9 +549,12 @@ def build_object(spec, enums):
     """enums: {index: PPEnumFieldType} shared field types of the world"""
     k = spec["kind"]
     if k == "pp":
+        # (the value is the application's own data object: it lives as long as the object slot, and every
+        # rendering prints this very object)
+        value = decode_value(spec["value"])
         if spec.get("module_pp") and not spec.get("fmt_json"):
-            return Built(k, akppobj.pp, spec)        # the ready-to-use printer of the module
-        return Built(k, PrettyPrinter(fmt_json=spec.get("fmt_json", False)), spec)
+            return Built(k, akppobj.pp, spec, value)        # the ready-to-use printer of the module
+        return Built(k, PrettyPrinter(fmt_json=spec.get("fmt_json", False)), spec, value)
     if k == "userbox":
         return Built(k, UserBox(spec["items"]), spec)
     if k == "usernote":
@@ -647,7 +669,7 @@ def start_rendering(built, conf, mode):
             palette = pcls
     k = built.kind
     if k == "pp":
-        r.res = built.obj(decode_value(built.spec["value"]), palette=palette, no_color=no_color, colors_conf=colors_conf)
+        r.res = built.obj(built.records, palette=palette, no_color=no_color, colors_conf=colors_conf)
     elif k in ("table", "ghist", "userbox", "usernote"):
         r.res = built.obj.ch_text(palette=palette, no_color=no_color, colors_conf=colors_conf)
     elif k == "recfmt":
